@@ -10,6 +10,7 @@ mod codec;
 mod conc;
 mod indep;
 mod misc;
+mod plmode;
 
 use std::io::{BufRead, Write};
 
